@@ -70,14 +70,19 @@ def streams(rng, tier, ctx):
             k = r.pick([1, 2, 3])
             lim = (k, r.pick([k, 8]))
             sim = E.EpSim(r, inter=it)
-            sim.srv(lim[0], lim[1], 1, dict(E.DEFAULT_EP))
+            sim.srv(lim[0], lim[1], r.pick([0, 1]), dict(E.DEFAULT_EP))
             lat = r.pick([0, 5_000_000])
             nets = {"c2s": E.Net(latency=lat), "s2c": E.Net(latency=lat)}
             dt = r.pick([50_000_000, 200_000_000])
+            abandoned = set(j for j in range(k) if r.chance(1, 4))      # handshakes that never complete: every SYN-ACK is lost
+            for j in abandoned:
+                nets[(j, "s2c")] = E.Net(loss=1000)
             for j in range(k):
                 sim.cli(j, dict(E.DEFAULT_EP), nets)
             sim.run(r.range(6, 14), dt, nets)
             for j in range(k):
+                if j in abandoned:
+                    continue
                 how = r.pick(["cross", "cross", "sdisc", "cdiscnow", "sdrop", "silence"])
                 if how == "cross":
                     sim.call(r.pick(["sdisc", "sdiscnow"]), j); sim.call(r.pick(["cdisc", "cdiscnow"]), j)
